@@ -5,6 +5,7 @@ package main
 // findings, replay counterexamples, write evidence, print verdict lines.
 
 import (
+	"sync"
 	"bytes"
 	"context"
 	"encoding/json"
@@ -120,6 +121,7 @@ func cmdCheck(args []string) int {
 	toFlag := fs.Int("t", 0, "per-obligation timeout (s)")
 	noEvidence := fs.Bool("no-evidence", false, "do not write evidence (selftest runs)")
 	fs.Parse(args)
+	keepHypScript = *relock && os.Getenv("GOVC_NOVACUITY") == ""
 	if fs.NArg() < 1 {
 		fmt.Fprintln(os.Stderr, "usage: govc check [flags] <Cxx>")
 		return 2
@@ -236,6 +238,67 @@ func cmdCheck(args []string) int {
 			if r.Err != "" {
 				fmt.Printf("  RELOCK WARNING: %s produced no obligations: %s\n", r.Func, r.Err)
 			}
+		}
+		// vacuity sweep: the hypotheses of (one instance of) every discharged
+		// group must not be contradictory on their own
+		if os.Getenv("GOVC_NOVACUITY") == "" {
+			type vq struct {
+				base string
+				o    *Obligation
+				file string
+			}
+			var qs []vq
+			for i, bname := range order {
+				g := groups[bname]
+				if len(g.fails) > 0 || len(g.insts) == 0 {
+					continue
+				}
+				o := g.insts[len(g.insts)-1]
+				if o.Cover || o.smtHyps == "" || strings.Contains(o.Name, "safety.panic(") {
+					continue
+				}
+				f := filepath.Join(work, fmt.Sprintf("vac%05d.smt2", i))
+				os.MkdirAll(work, 0o755)
+				os.WriteFile(f, []byte(o.smtHyps), 0o644)
+				qs = append(qs, vq{bname, o, f})
+			}
+			var wg sync.WaitGroup
+			sem := make(chan struct{}, 16)
+			var mu sync.Mutex
+			vac := 0
+			for _, q := range qs {
+				wg.Add(1)
+				sem <- struct{}{}
+				go func(q vq) {
+					defer wg.Done()
+					defer func() { <-sem }()
+					st, _, _ := runOne(context.Background(), solvers[0], q.file, 2*time.Second)
+					if st != "unsat" {
+						f2 := q.file + ".cvc5.smt2"
+						data, _ := os.ReadFile(q.file)
+						os.WriteFile(f2, append([]byte("(set-logic ALL)\n"), data...), 0o644)
+						for _, sd := range solvers {
+							if sd.name == "cvc5" {
+								st, _, _ = runOne(context.Background(), sd, f2, 2*time.Second)
+							}
+						}
+						os.Remove(f2)
+					}
+					if st == "unsat" && os.Getenv("GOVC_KEEPVAC") != "" {
+						data, _ := os.ReadFile(q.file)
+						os.WriteFile("/var/tmp/vac-"+sanitize(q.o.Name)+".smt2", data, 0o644)
+					}
+					os.Remove(q.file)
+					if st == "unsat" {
+						mu.Lock()
+						vac++
+						fmt.Printf("  RELOCK WARNING: %s holds vacuously (its hypotheses are contradictory)\n", q.o.Name)
+						mu.Unlock()
+					}
+				}(q)
+			}
+			wg.Wait()
+			fmt.Printf("vacuity sweep %s: %d groups checked, %d vacuous\n", prop, len(qs), vac)
 		}
 		return writeLock(filepath.Join(*verif, "obligations.lock"), prop, order, func(b string) bool { return len(groups[b].fails) == 0 }, lock)
 	}
